@@ -62,7 +62,15 @@ def run(R):
                      "advances the interval start by exactly slide per iteration, and can be left only when the next interval "
                      "would start after the event time - so no aligned interval containing the event is skipped (linear "
                      "arithmetic over the loop's header values; numeric casts taken as value-preserving)")
+    R.rule("C09-R4", "opening start: the first interval scope() opens for an event closes at a slide-aligned instant "
+                     "(k * slide, measured from t_0, and t_0 is only ever the constant 0) that is not later than the first slide "
+                     "boundary after the event - so together with R3 exactly the aligned intervals containing the event are opened")
+    R.rule("C09-R5", "opening never resets content: scope() inserts an empty container for an interval only when the interval "
+                     "is absent from the active windows")
+    R.rule("C09-R6", "report strategies are conjunctive: Report::report answers `all` over the configured strategies, with the "
+                     "per-strategy tests len > 0 / close <= t / t % period == 0")
     r3(R)
+    r6(R)
     bodies = {}
     for nm in INGEST:
         b = R.body("C09-R1", "CSPARQLWindow::%s" % nm, crate="kolibrie")
@@ -223,6 +231,8 @@ def r3(R):
                  "(leaves when %s %s 0; next start - event time = %s)" % (form.render(), ">" if kind == "strict" else ">=", nopen.add(L.Lin.sym("arg:event_time"), -1).render()),
                  ok, where=sc.where(ln),
                  detail=None if ok else "an aligned interval that already contains the event is not opened, so the event is missing from it when it is reported")
+        _first_interval(R, sc, lv, h, blocks, cls, c)
+        _insert_if_absent(R, sc, c)
         if lv.assumptions:
             R.advisory("C09-R3", "assumptions: " + "; ".join(sorted(lv.assumptions)))
     R.floor("C09-R3", "window-opening loops in scope()", n, 1)
@@ -287,3 +297,177 @@ def _root_param(cl, l, depth=0):
         if src is not None:
             return _root_param(cl, src["l"], depth + 1)
     return None
+
+
+# ---------------------------------------------------------------- R4 / R5 / R6
+
+import re as _re
+
+_D = r"(abs\(arg:event_time - self\.t_0\)|abs_diff\(arg:event_time,self\.t_0\)|arg:event_time - self\.t_0|arg:event_time)"
+_ALIGNED = [
+    (_re.compile(r"^mul\(ceil\(div\(%s,self\.slide\)\),self\.slide\)$" % _D), "ceil"),
+    (_re.compile(r"^mul\(div_ceil\(%s,self\.slide\),self\.slide\)$" % _D), "ceil"),
+    (_re.compile(r"^mul\(floor\(div\(%s,self\.slide\)\),self\.slide\)$" % _D), "floor"),
+    (_re.compile(r"^mul\(div\(%s,self\.slide\),self\.slide\)$" % _D), "intdiv"),
+]
+
+
+def _first_interval(R, sc, lv, h, blocks, cls, ins):
+    pre = [p for p in sc.pred(h) if p not in blocks]
+    if len(pre) != 1:
+        R.ob("C09-R4", "preheader", "the opening loop of scope() has a single entry", False, where=sc.where())
+        return
+    env = {}
+    for l in lv.carried:
+        env["H:" + lv.name(l)] = lv.place({"l": l, "p": [], "t": ""}, (pre[0], 10 ** 7))
+    first = L.substitute(cls, env)
+    kinds = []
+    rest = L.Lin()
+    for t, c in first.items():
+        m = None
+        for rx, kind in _ALIGNED:
+            if rx.match(t) and c == 1:
+                m = kind
+        if m:
+            kinds.append(m)
+        elif t == "self.slide":
+            rest = rest.add(L.Lin({t: c}))
+        else:
+            rest = rest.add(L.Lin({t: c}))
+    has_float_div = any(rv["rv"] == "binop" and rv["op"] == "Div" and "f64" in sc.local_ty(pl["l"]) for bb, i, pl, rv, st in sc.assigns() if not pl["p"])
+    ok = len(kinds) == 1
+    why = None
+    if not ok:
+        why = "the first close is not of the form k * slide with k a rounded quotient of the event's distance from t_0"
+    else:
+        kind = kinds[0]
+        if kind == "intdiv" and has_float_div:
+            ok, why = False, "a floating-point quotient is multiplied back without ceil()/floor(): the close is not slide-aligned"
+        extra = {t: c for t, c in rest.items()}
+        j = extra.pop("self.slide", 0)
+        if extra:
+            ok, why = False, "the first close is offset from a slide boundary by %s" % L.Lin(extra).render()
+        elif j != int(j) or j > (0 if kind == "ceil" else 1):
+            ok, why = False, "the first close lies %s slide(s) beyond the first boundary at/after the event: earlier aligned intervals that contain the event are never opened" % j
+    R.ob("C09-R4", "first-close", "the first interval opened by scope() closes at the slide boundary at/after the event (first close = %s)" % first.render(),
+         ok, where=sc.where(ins.ln), detail=why)
+    # t_0 is the constant 0: every write of the field assigns 0
+    prog = R.prog
+    nw = 0
+    bad = []
+    for b in prog.bodies.values():
+        if b.crate != "kolibrie" or "/rsp/" not in b.file:
+            continue
+        for bb, i, pl, rv, st in b.assigns():
+            if pl["p"] and pl["p"][-1].get("n") == "t_0" and pl["p"][-1].get("adt") == CSW:
+                nw += 1
+                if not (rv["rv"] == "use" and F.const_int(rv["op"]) == 0):
+                    bad.append(b.where(st.get("ln")))
+            if rv["rv"] == "aggregate" and rv.get("adt") == CSW and "t_0" in (rv.get("fields") or []):
+                nw += 1
+                o = rv["ops"][rv["fields"].index("t_0")]
+                if F.const_int(o) != 0:
+                    oo = b.origin(o, stop_named=False)
+                    if not (oo[0] == "const" and F.const_int(oo[1]) == 0):
+                        bad.append(b.where(st.get("ln")))
+    R.ob("C09-R4", "origin", "the alignment origin t_0 of CSPARQLWindow is only ever the constant 0 (%d writes)" % nw, nw >= 1 and not bad,
+         where=bad[0] if bad else sc.where(),
+         detail=None if not bad else "with another origin the reported intervals close at t_0 + k*slide, which is not a multiple of the slide")
+
+
+def _insert_if_absent(R, sc, ins):
+    """the insert call is control-dependent on an absence test of the same map (get(..) is None / !contains_key), or is or_insert*"""
+    conds = G.conditions(sc, ins.bb)
+    ok = False
+    seen = []
+
+    def on_windows(c):
+        if not c.args:
+            return False
+        o = sc.origin(c.args[0], stop_named=False)
+        return o[0] == "place" and any(e.get("n") == "active_windows" for e in o[1]["p"])
+    for cd in conds:
+        seen.append("%s:%s" % (cd.get("kind"), cd.get("variant", cd.get("truth"))))
+        if cd.get("kind") == "call" and cd["call"].name() == "contains_key" and cd.get("truth") is False and on_windows(cd["call"]):
+            ok = True
+        if cd.get("kind") == "call" and cd["call"].name() == "is_none" and cd.get("truth") is True:
+            o = sc.origin(cd["call"].args[0], stop_named=False)
+            if o[0] == "call" and o[1].name() in ("get", "get_mut", "get_key_value") and on_windows(o[1]):
+                ok = True
+        if cd.get("kind") == "variant" and cd.get("variant") == "None":
+            o = sc.origin({"k": "copy", "pl": {"l": cd["pl"]["l"], "p": [], "t": ""}}, stop_named=False)
+            if o[0] == "call" and o[1].name() in ("get", "get_mut", "get_key_value") and on_windows(o[1]):
+                ok = True
+    if ins.name() in ("or_insert", "or_insert_with", "or_default"):
+        ok = True
+    R.ob("C09-R5", "absent", "scope() inserts a fresh container only under `the interval is not among the active windows`", ok,
+         where=sc.where(ins.ln),
+         detail=None if ok else "an unconditional insert replaces the container of an interval that is still open: items already assigned to it are lost "
+         "(controlling conditions seen: %s)" % seen)
+
+
+def r6(R):
+    rp = R.body("C09-R6", "Report::report", crate="kolibrie")
+    if rp is None:
+        return
+    R.saw(rp)
+    prog = R.prog
+    alls = [c for c in rp.calls() if c.name() == "all"]
+    ret_from_all = False
+    for c in alls:
+        if c.dest["l"] == 0 and not c.dest["p"]:
+            ret_from_all = True
+        else:
+            for bb, i, pl, rv, st in rp.assigns():
+                if pl["l"] == 0 and not pl["p"] and rv["rv"] == "use" and rp.alias_root(rv["op"]) == c.dest["l"]:
+                    ret_from_all = True
+    src_ok = False
+    for c in alls:
+        if c.args and "strategies" in _chain_fields(rp, c.args[0]):
+            src_ok = True
+    R.ob("C09-R6", "conjunction", "Report::report returns Iterator::all over self.strategies", bool(alls) and ret_from_all and src_ok, where=rp.where(),
+         detail=None if (alls and ret_from_all and src_ok) else "with any() (or a subset of the strategies) a window is reported although one configured "
+         "condition fails, e.g. before it closes")
+    # per-strategy tests inside the closure
+    from c19 import closure_family_calls
+    found = set()
+    for c in alls:
+        key, inner = closure_family_calls(prog, rp, c.args[1]) if len(c.args) > 1 else (None, [])
+        if not key:
+            continue
+        for x in prog.family(key):
+            for bb, i, pl, rv, st in x.assigns():
+                if rv["rv"] != "binop":
+                    continue
+                o = rv["op"]
+                a, b_ = rv["a"], rv["b"]
+                if o in ("Gt", "Lt", "Ge", "Le", "Eq", "Ne"):
+                    ca, cb = F.const_int(a), F.const_int(b_)
+                    # x > 0 on a len()
+                    if o == "Gt" and cb == 0:
+                        oa = x.origin(a, stop_named=False)
+                        if oa[0] == "call" and oa[1].name() == "len":
+                            found.add("nonempty")
+                    if o == "Lt" and ca == 0:
+                        ob_ = x.origin(b_, stop_named=False)
+                        if ob_[0] == "call" and ob_[1].name() == "len":
+                            found.add("nonempty")
+                    if o == "Ne" and (cb == 0 or ca == 0):
+                        oa = x.origin(a if cb == 0 else b_, stop_named=False)
+                        if oa[0] == "call" and oa[1].name() == "len":
+                            found.add("nonempty")
+                    if o == "Eq" and (cb == 0 or ca == 0):
+                        oo = x.origin(a if cb == 0 else b_, stop_named=False)
+                        if oo[0] == "rv" and oo[1]["rv"] == "binop" and oo[1]["op"] == "Rem":
+                            found.add("periodic")
+                        elif oo[0] == "call" and oo[1].name() == "rem":
+                            found.add("periodic")
+                        elif oo[0] == "place":
+                            d = x.single_def(oo[1]["l"])
+                            if d and d[0] == "assign" and d[3]["rv"] == "binop" and d[3]["op"] == "Rem":
+                                found.add("periodic")
+            for c2 in x.calls():
+                if c2.name() == "is_empty":
+                    found.add("nonempty?")
+    R.ob("C09-R6", "arms", "the strategy tests are len > 0 (NonEmptyContent) and t %% period == 0 (Periodic) (found %s)" % sorted(found),
+         {"nonempty", "periodic"} <= found, where=rp.where())
